@@ -170,7 +170,37 @@ func checkAPIValue(tag, value string) (sig, what string) {
 	return "", ""
 }
 
+// checkInPlaceEdit: setters that rewrite a node in place (IndividualNode.SetSex) between comparisons of
+// the same two objects: the answer must follow the data every time, in both directions.
+func checkInPlaceEdit() (sig, what string) {
+	d1, _ := gedcom.NewDocumentFromString("0 @I1@ INDI\n1 NAME A /B/\n1 SEX M\n1 BIRT\n2 DATE 1900\n")
+	d2, _ := gedcom.NewDocumentFromString("0 @I1@ INDI\n1 NAME A /B/\n1 SEX M\n1 BIRT\n2 DATE 1900\n")
+	T, C := d1.Individuals()[0], d2.Individuals()[0]
+	steps := []struct {
+		sex  string
+		want bool
+	}{{"", true}, {"F", false}, {"M", true}, {"U", false}, {"M", true}}
+	for i, st := range steps {
+		if st.sex != "" {
+			C.SetSex(st.sex)
+		}
+		for rep := 0; rep < 2; rep++ {
+			ab, _ := deq(T, C)
+			ba, _ := deq(C, T)
+			n1, n2 := gedcom.DeepEqualNodes(T.Nodes(), C.Nodes()), gedcom.DeepEqualNodes(C.Nodes(), T.Nodes())
+			if ab != st.want || ba != st.want || n1 != st.want || n2 != st.want {
+				return "in-place-edit-not-followed-by-deep-equality", fmt.Sprintf("step %d (SetSex(%q) on the second of two equal individuals, comparison %d): DeepEqual %v/%v DeepEqualNodes %v/%v, want %v", i, st.sex, rep+1, ab, ba, n1, n2, st.want)
+			}
+		}
+	}
+	return "", ""
+}
+
 func runAPIValues(r *vlib.Rec) {
+	r.Eval()
+	if sig, what := checkInPlaceEdit(); sig != "" {
+		r.Fail(sig, what, kase{Sub: "apivalues", Arg: "in-place\x00"})
+	}
 	for _, tag := range apiTags {
 		for _, v := range apiValues {
 			r.Eval()
